@@ -563,4 +563,36 @@ theorem C07_entry_k1 (m : ℕ) (y : ℚ) (xs : List ℚ) : extrapEntry m [y] xs 
   rfl
 
 end Fallback
+
+/-! ### the mask of a Spectrum-valued extrapolation (round 7)
+`maskResult` runs the generated dispatch and k-point formulas on mask bits, every operation being the generated
+`specArithMask` (the binary-arithmetic template of `Spectrum`). -/
+section Mask
+
+/-- the arithmetic of `Spectrum`, as translated from the current template: the result is masked exactly where one of the
+    operands is — for a corner entry as for any other (nothing is re-masked) -/
+theorem C07_arith_mask (corner a b : Bool) :
+    specArithMask corner a (some b) = (a || b) ∧ specArithMask corner a none = a := by
+  revert corner a b; decide
+
+/-- labels, the mask: for every number of grids 1…6 the extrapolated Spectrum is masked at an entry (corner or not) exactly
+    when one of the k results of the model is masked there (complete finite table: 2 · (2 + 4 + … + 64) rows) -/
+theorem C07_mask_union (corner : Bool) :
+    (∀ m1 : Bool, maskResult corner [m1] = some m1) ∧
+    (∀ m1 m2 : Bool, maskResult corner [m1, m2] = some (m1 || m2)) ∧
+    (∀ m1 m2 m3 : Bool, maskResult corner [m1, m2, m3] = some (m1 || m2 || m3)) ∧
+    (∀ m1 m2 m3 m4 : Bool, maskResult corner [m1, m2, m3, m4] = some (m1 || m2 || m3 || m4)) ∧
+    (∀ m1 m2 m3 m4 m5 : Bool, maskResult corner [m1, m2, m3, m4, m5] = some (m1 || m2 || m3 || m4 || m5)) ∧
+    (∀ m1 m2 m3 m4 m5 m6 : Bool, maskResult corner [m1, m2, m3, m4, m5, m6] = some (m1 || m2 || m3 || m4 || m5 || m6)) := by
+  revert corner; decide
+
+/-- a corner left unmasked by the model on all three grids stays unmasked; an interior entry masked on one grid is masked -/
+example : maskResult true [false, false, false] = some false ∧ maskResult false [false, true, false] = some true := by decide
+
+/-- counts outside 1…6 are refused on mask bits as on numbers -/
+theorem C07_mask_range (corner : Bool) : maskResult corner [] = none ∧
+    maskResult corner [false, false, false, false, false, false, false] = none := by
+  revert corner; decide
+
+end Mask
 end DadiVerif
